@@ -94,6 +94,24 @@ def _is_reassign(node):
     return isinstance(tgt, ast.Attribute) and tgt.attr == "_instance"
 
 
+def _is_instance_test(node):
+    """getattr(self, "_instance", None) used as a truth test"""
+    return (isinstance(node, ast.Call) and isinstance(node.func, ast.Name) and node.func.id == "getattr"
+            and len(node.args) >= 2 and isinstance(node.args[1], ast.Constant) and node.args[1].value == "_instance")
+
+
+def _cond_reassign(fn):
+    """every re-assignment in fn sits under `if getattr(self, "_instance", None):`"""
+    guarded, total = 0, 0
+    for node in ast.walk(fn):
+        if isinstance(node, ast.Call) and _is_reassign(node):
+            total += 1
+    for node in ast.walk(fn):
+        if isinstance(node, ast.If) and _is_instance_test(node.test):
+            guarded += sum(1 for n in ast.walk(node) if isinstance(n, ast.Call) and _is_reassign(n))
+    return total > 0 and guarded == total
+
+
 def _self_method_calls(fn):
     """names of methods invoked on `self` (delegation to another override)"""
     out = set()
@@ -120,7 +138,7 @@ def analyse():
         for m in muts:
             fn = methods.get(m)
             if fn is None:
-                facts[m] = dict(overridden=False, guard=False, reassign=False, superCall=False, delegates=[])
+                facts[m] = dict(overridden=False, guard=False, reassign=False, superCall=False, delegates=[], cond=False)
                 continue
             calls = [n for n in ast.walk(fn) if isinstance(n, ast.Call)]
             facts[m] = dict(
@@ -129,6 +147,7 @@ def analyse():
                 reassign=any(_is_reassign(c) for c in calls),
                 superCall=any(_is_super_call(c, set(muts)) for c in calls),
                 delegates=sorted(_self_method_calls(fn) & set(muts)),
+                cond=_cond_reassign(fn),
             )
         # a method that only delegates to other safe overrides inherits their guard / reassign
         changed = True
@@ -147,6 +166,51 @@ def analyse():
     return rows, acc_rows
 
 
+def nested_bound():
+    """are typed wrappers nested inside another wrapper bound to their parent (a nested mutation re-assigns and so
+    re-validates the owning field), or to the scratch Structure() their parent was validated on (today)?  Probed on
+    the real code for the three wrapper kinds; `True` only if every probe rejects an ill-typed nested mutation and
+    leaves the instance unchanged."""
+    try:
+        import typedpy as T
+        A = type("NbProbe", (T.Structure,), {"n": T.Array[T.Array[T.Integer]], "d": T.Array[T.Deque[T.Integer]],
+                                              "m": T.Array[T.Map[T.String, T.Integer]], "_required": []})
+        verdicts = []
+        for f, val, call in (("n", [[1]], lambda w: w.append("bad")),
+                             ("d", [collections.deque([1])], lambda w: w.appendleft("bad")),
+                             ("m", [{"a": 1}], lambda w: w.__setitem__("b", "bad"))):
+            x = A(**{f: val})
+            before = str(x)
+            try:
+                call(getattr(x, f)[0])
+                verdicts.append(False)
+            except (TypeError, ValueError):
+                verdicts.append(str(x) == before)
+        return all(verdicts)
+    except Exception:
+        return False
+
+
+def delitem_hook():
+    """does `del x[f]` run the class's __validate__ hook (and restore the instance when it raises)?  Probed."""
+    try:
+        import typedpy as T
+
+        def __validate__(self):
+            if self.__dict__.get("a") is None:
+                raise ValueError("a is needed")
+        P = type("DhProbe", (T.Structure,), {"a": T.Integer, "b": T.Integer, "_required": [], "__validate__": __validate__})
+        x = P(a=1, b=2)
+        before = str(x)
+        try:
+            del x["a"]
+            return False
+        except ValueError:
+            return str(x) == before
+    except Exception:
+        return False
+
+
 def render(rows, acc_rows):
     lines = ["/- GENERATED by extract/wrappers.py from typedpy/fields/collections_impl.py — do not edit. -/",
              "import TypedpyModel.Core.Tables", "namespace Typedpy.Generated", "",
@@ -155,12 +219,15 @@ def render(rows, acc_rows):
     for kind, m, f in rows:
         items.append(f"  {{ wrapper := {lean_str(kind)}, method := {lean_str(m)}, overridden := {lean_bool(f['overridden'])}, "
                      f"guard := {lean_bool(f['guard'])}, reassign := {lean_bool(f['reassign'])}, "
-                     f"superCall := {lean_bool(f['superCall'])} }}")
+                     f"superCall := {lean_bool(f['superCall'])}, condInstance := {lean_bool(f.get('cond', False))} }}")
     lines.append(",\n".join(items))
     lines += ["]", "", "def accessors : List AccessorRec := ["]
     lines.append(",\n".join(f"  {{ wrapper := {lean_str(k)}, method := {lean_str(a)}, overridden := {lean_bool(o)} }}"
                             for k, a, o in acc_rows))
-    lines += ["]", "", "end Typedpy.Generated", ""]
+    lines += ["]", "", "/-- nested typed wrappers re-assign (re-validate) their parent: probed on the real code -/",
+              f"def nestedBound : Bool := {lean_bool(nested_bound())}", "",
+              "/-- `Structure.__delitem__` runs the class's `__validate__` hook and rolls back: probed on the real code -/",
+              f"def delitemHook : Bool := {lean_bool(delitem_hook())}", "", "end Typedpy.Generated", ""]
     return "\n".join(lines)
 
 
